@@ -15,6 +15,7 @@ model `SleapVerif.Eval` (+ `SleapVerif.Oks.matchInstances`) run through `drivers
 """
 from __future__ import annotations
 
+import os
 import warnings
 from fractions import Fraction
 
@@ -138,9 +139,16 @@ def main(chk: Check, build=True):
     from sleap_io.io.video_reading import HDF5Video, MediaVideo
     tmpdir = tempfile.mkdtemp(prefix="verif_c16_")
     atexit.register(lambda: shutil.rmtree(tmpdir, ignore_errors=True))
+    # file index -> path.  Files 0, 1, 2 share their BASENAME and differ by directory only (recordings of
+    # several days: data/2024-05-01/cam0…, data/2024-05-02/cam0…); file 3 has a name of its own.  The key
+    # `find_frame_pairs` compares is the full filename (+ backend class + dataset), as the model's VideoKey.
+    def file_path(fi, ext):
+        return (f"{tmpdir}/data/2024-05-0{fi + 1}/cam0{ext}" if fi < 3 else f"{tmpdir}/data/other/arena_b{ext}")
+
     pkg_files = []
-    for k in range(2):
-        fn = f"{tmpdir}/pack{k}.pkg.slp"
+    for k in range(4):
+        fn = file_path(k, ".pkg.slp")
+        os.makedirs(os.path.dirname(fn), exist_ok=True)
         with h5py.File(fn, "w") as fh:
             for d in range(3):
                 fh.create_dataset(f"video{d}/video", data=np.zeros((2, 8, 8, 1), dtype="uint8"))
@@ -156,8 +164,8 @@ def main(chk: Check, build=True):
                            source_filename=f"session{fi}_{ds}.mp4")
             return sio.Video(filename=pkg_files[fi], backend=be)
         if kind == 1:
-            return sio.Video(filename=f"clip{fi}.mp4", open_backend=False)
-        return sio.Video(filename=f"movie{fi}.mp4", backend=MediaVideo(filename=f"movie{fi}.mp4", keep_open=False))
+            return sio.Video(filename=file_path(fi, ".mp4"), open_backend=False)
+        return sio.Video(filename=file_path(fi, ".avi"), backend=MediaVideo(filename=file_path(fi, ".avi"), keep_open=False))
 
     def key_tokens(key):
         key = tuple(key)
@@ -712,22 +720,24 @@ def main(chk: Check, build=True):
         independently created Video objects; a few cases use backends without `dataset` (F-C16c)."""
         u = rng.random()
         nv = 1 if u < 0.4 else (2 if u < 0.8 else 3)
-        if not perfect and rng.random() < 0.07:
+        if rng.random() < 0.08:
             kind = rng.choice([1, 2])
-            keys = [(kind, i, None) for i in range(nv)]
+            keys = [(kind, i, None) for i in rng.sample(range(4), nv)]   # files 0-2: same basename, other directory
         elif nv == 1 and rng.random() < 0.5:
             keys = [("asset",)]
         else:
             layout = rng.choice(["same_file", "same_file", "diff_files", "mixed"])
-            fi = rng.randrange(2)
+            files = rng.sample(range(4), 3)   # distinct files; any two of 0, 1, 2 share the basename
+            fi = files[0]
             if layout == "same_file":
                 keys = [(0, fi, d) for d in rng.sample(range(3), nv)]
             elif layout == "diff_files":
-                keys = [(0, (fi + i) % 2, rng.randrange(3) if i < 2 else 2 - 0) for i in range(min(nv, 2))]
-                if nv == 3:
-                    keys.append((0, fi, (keys[0][2] + 1) % 3))
+                # one video per file; mostly the SAME dataset name, so that only the directory tells them apart
+                d0 = rng.randrange(3)
+                keys = [(0, files[i], d0 if rng.random() < 0.7 else rng.randrange(3)) for i in range(nv)]
             else:
-                keys = [(0, fi, 0), (0, 1 - fi, 0), (0, fi, 1)][:nv]
+                # mixed: two datasets of one file + the same dataset name in a file with the same basename
+                keys = [(0, fi, 0), (0, files[1], 0), (0, fi, 1)][:nv]
         nv = len(keys)
         case["videos"] = keys
         nxt = [0] * nv
@@ -743,7 +753,7 @@ def main(chk: Check, build=True):
             elif w < 0.3 and nv > 1:
                 prv.pop(rng.randrange(nv))
             elif w < 0.4:
-                extra = [k for k in [(0, 0, 0), (0, 0, 1), (0, 1, 0), (0, 1, 2), (0, 0, 2)] if k not in keys]
+                extra = [k for k in [(0, 0, 0), (0, 0, 1), (0, 1, 0), (0, 1, 2), (0, 0, 2), (0, 2, 0), (0, 3, 0)] if k not in keys]
                 prv.insert(rng.randrange(len(prv) + 1), rng.choice(extra))
             elif w < 0.47:
                 # a second prediction video with the key of an existing one: the FIRST one is matched
@@ -845,7 +855,19 @@ def main(chk: Check, build=True):
                          (1, 0): [[40, 45], [48, 30], [55, 52]], (1, 1): [[42, 44], [50, 31], [57, 50]]}.items():
         pts = [[float(x), float(y)] for x, y in pts]
         two["frames"].append({"video": v, "frame_idx": fi, "gt": [pts], "pr": [(0.9, [list(q) for q in pts])]})
-    cases = [("perfect", two)] + [("gen", gen_case()) for _ in range(n_cases)]
+    # fixed second/third case: three recordings with the same file name in three directories
+    # (data/2024-05-0k/cam0.*), same frame indices, different poses, perfect predictions - once as
+    # MediaVideo-backed labels, once HDF5-backed with the same dataset name in every file
+    fixed = [("perfect", two)]
+    for keys in ([(2, 0, None), (2, 1, None), (2, 2, None)], [(0, 0, 0), (0, 1, 0), (0, 2, 0)]):
+        c3 = {"n_nodes": 3, "videos": list(keys), "pr_videos": list(keys), "share_videos": False,
+              "stddev": 0.025, "scale": None, "thr": 0, "frames": []}
+        for v in range(3):
+            for fi in range(2):
+                pts = [[10.0 + 70 * v + fi, 12.0 + 40 * v], [20.0 + 70 * v, 22.0 + 40 * v + fi], [30.0 + 70 * v, 18.0 + 40 * v]]
+                c3["frames"].append({"video": v, "frame_idx": fi, "gt": [pts], "pr": [(0.9, [list(q) for q in pts])]})
+        fixed.append(("perfect", c3))
+    cases = fixed + [("gen", gen_case()) for _ in range(n_cases)]
     for k in range(n_perfect):
         c = gen_case(perfect=True)
         if rng.random() < 0.12:
@@ -895,6 +917,9 @@ def main(chk: Check, build=True):
                 "hdf5" if all(tuple(k) == ("asset",) or tuple(k)[0] == 0 for k in info["case"]["videos"]) else "non_hdf5_backend"]
         if len({tuple(k)[:2] for k in info["case"]["videos"]}) < nvid:
             tags.append("videos_share_a_file")
+        fidx = {tuple(k)[1] for k in info["case"]["videos"] if tuple(k) != ("asset",)}
+        if len(fidx & {0, 1, 2}) >= 2:
+            tags.append("videos_share_a_basename_in_different_directories")
         if any(not any(x == x and y == y for x, y in g) for f in case["frames"] for g in enum_points(case, f)):
             tags.append("has_empty_gt_instance")
         tags.append("user_labels_only" if case.get("user_labels_only", True) else "all_instances_mode")
